@@ -168,6 +168,25 @@ static std::string esc(const std::string& s, size_t maxn = 400) {
     return o;
 }
 
+static std::string lower(std::string s) { for (auto& ch : s) ch = tolower(ch); return s; }
+static std::string upper(std::string s) { for (auto& ch : s) ch = toupper(ch); return s; }
+struct Lookup { std::string name; bool exact; std::vector<std::string> vals; std::string sent; };
+static std::vector<Lookup> lookup_plan(const std::vector<std::pair<std::string, std::string>>& exp) {
+    std::vector<Lookup> plan;
+    for (auto& kv : exp) {
+        std::vector<std::string> vals;
+        for (auto& o : exp) if (lower(o.first) == lower(kv.first)) vals.push_back(o.second);
+        std::sort(vals.begin(), vals.end());
+        std::string names[3] = {kv.first, lower(kv.first), upper(kv.first)};
+        for (int v = 0; v < 3; v++) { if (v > 0 && names[v] == names[0]) continue; plan.push_back({names[v], v == 0, vals, kv.first}); }
+    }
+    for (const char* absent : {"X-Absent", "Hos", "Content-Lengt", "Z"}) {
+        bool present = false; for (auto& o : exp) if (lower(o.first) == lower(absent)) present = true;
+        if (!present) plan.push_back({absent, true, {}, ""});
+    }
+    return plan;
+}
+
 struct Msg {
     std::string id, wire, el, escw;
     bool req = false; int start = 0; Fr fr{F_NONE, 0, 0};
@@ -177,6 +196,7 @@ struct Msg {
     std::vector<int> cand;                                      // candidate cut positions (1..L-1)
     std::vector<size_t> size_digits;                            // wire positions of chunk-size hex digits
     std::vector<size_t> hdr_starts;                             // wire positions where a header line may be inserted
+    std::vector<Lookup> plan;
     void app(const std::string& s, El e) { wire += s; el.append(s.size(), (char)e); }
     void header(const std::string& name, const std::string& sep, const std::string& value) {
         hdr_starts.push_back(wire.size());
@@ -223,6 +243,7 @@ static Msg build(int start, const std::vector<int>& sel, Fr fr, int fpos, bool t
     m.msg_len = m.wire.size();
     if (tail) m.app("Zz", E_TAIL);
     m.escw = esc(m.wire);
+    m.plan = lookup_plan(m.hdrs);
     // candidate cut positions: everything, except the inside of long chunk data (kept: 3 bytes at each edge, the
     // 4096-byte recv limit and the 4096-byte line buffer limit)
     size_t L = m.wire.size();
@@ -264,8 +285,6 @@ struct Result {
 
 struct ExpectHdrs { const std::vector<std::pair<std::string, std::string>>* h; };
 
-static std::string lower(std::string s) { for (auto& ch : s) ch = tolower(ch); return s; }
-static std::string upper(std::string s) { for (auto& ch : s) ch = toupper(ch); return s; }
 
 static void snapshot_headers(const Headers& h, std::vector<std::pair<std::string, std::string>>& out) {
     out.clear(); int guard = 0;
@@ -277,42 +296,48 @@ static void snapshot_headers(const Headers& h, std::vector<std::pair<std::string
 }
 
 // lookups through find / operator[] / equal_range with the wire-case name (exact) and other-case names
-static void check_lookups(const Headers& h, const std::vector<std::pair<std::string, std::string>>& exp, Result& r) {
-    for (auto& kv : exp) {
-        std::vector<std::string> vals;
-        for (auto& o : exp) if (lower(o.first) == lower(kv.first)) vals.push_back(o.second);
-        std::sort(vals.begin(), vals.end());
-        std::string names[3] = {kv.first, lower(kv.first), upper(kv.first)};
-        for (int v = 0; v < 3; v++) {
-            if (v > 0 && names[v] == names[0]) continue;
-            std::string& err = v == 0 ? r.lookup_err : r.lookup_case_err;
-            if (!err.empty()) continue;
-            auto it = h.find(names[v]);
-            if (it == h.end()) { err = "find(\"" + names[v] + "\") == end() although header \"" + kv.first + "\" was sent"; continue; }
-            auto sv = it.second(); std::string got(sv.data(), sv.size());
-            if (!std::binary_search(vals.begin(), vals.end(), got)) { err = "find(\"" + names[v] + "\") -> \"" + esc(got) + "\""; continue; }
-            auto bv = h[names[v]]; std::string gb(bv.data(), bv.size());
-            if (!std::binary_search(vals.begin(), vals.end(), gb)) { err = "operator[](\"" + names[v] + "\") -> \"" + esc(gb) + "\""; continue; }
-            auto er = h.equal_range(names[v]); std::vector<std::string> gv; int guard = 0;
-            for (auto i = er.first; i != er.second && guard < 100; ++i, ++guard) { auto s = i.second(); gv.push_back(std::string(s.data(), s.size())); }
-            std::sort(gv.begin(), gv.end());
-            if (gv != vals) { char b[100]; snprintf(b, sizeof b, "equal_range(\"%s\") has %zu values, expected %zu", names[v].c_str(), gv.size(), vals.size()); err = b; continue; }
+static bool has_val(const std::vector<std::string>& vals, std::string_view v) {
+    for (auto& x : vals) if (x.size() == v.size() && !memcmp(x.data(), v.data(), v.size())) return true;
+    return false;
+}
+static void check_lookups(const Headers& h, const std::vector<Lookup>& plan, Result& r) {
+    for (auto& L : plan) {
+        std::string& err = L.exact ? r.lookup_err : r.lookup_case_err;
+        if (!err.empty()) continue;
+        auto it = h.find(L.name);
+        if (L.vals.empty()) {
+            if (it != h.end() || !h[L.name].empty()) err = "absent header \"" + L.name + "\" found";
+            continue;
         }
-    }
-    for (const char* absent : {"X-Absent", "Hos", "Content-Lengt", "Z"}) {
-        bool present = false; for (auto& o : exp) if (lower(o.first) == lower(absent)) present = true;
-        if (present) continue;
-        if (r.lookup_err.empty() && (h.find(absent) != h.end() || !h[absent].empty())) r.lookup_err = std::string("absent header \"") + absent + "\" found";
+        if (it == h.end()) { err = "find(\"" + L.name + "\") == end() although header \"" + L.sent + "\" was sent"; continue; }
+        auto sv = it.second();
+        if (!has_val(L.vals, sv)) { err = "find(\"" + L.name + "\") -> \"" + esc(std::string(sv.data(), sv.size())) + "\""; continue; }
+        auto bv = h[L.name];
+        if (!has_val(L.vals, bv)) { err = "operator[](\"" + L.name + "\") -> \"" + esc(std::string(bv.data(), bv.size())) + "\""; continue; }
+        auto er = h.equal_range(L.name); size_t n = 0; bool ok = true;
+        for (auto i = er.first; i != er.second && n < 100; ++i, ++n) if (!has_val(L.vals, i.second())) ok = false;
+        // duplicates in this pool have distinct values, so "every value is one of the expected ones" + count = multiset equality
+        if (!ok || n != L.vals.size()) { char b[160]; snprintf(b, sizeof b, "equal_range(\"%s\") has %zu values, expected %zu", L.name.c_str(), n, L.vals.size()); err = b; continue; }
     }
 }
 
 // receive + read the whole body. cap: receive buffer size (own exact-size heap block, filled with 0xDD).
 // rb: body read buffer size (own exact-size heap block, filled with 0xEE before every read). maxreads: harness-side bound.
 static void run(const std::string& wire, const Delivery& d, Mode mode, Verb client_verb, unsigned cap, size_t rb, size_t maxreads,
-                const std::vector<std::pair<std::string, std::string>>* exp_hdrs, Result& r) {
+                const std::vector<Lookup>* plan, Result& r) {
     MockStream ms; ms.script(wire, d.p, d.n, d.every);
-    char* buf = (char*)malloc(cap); memset(buf, 0xDD, cap);
-    char* ub = (char*)malloc(rb);
+    // exact-size heap blocks, reused between cases of the same size (a fresh 64 KiB block per case costs 200 us of page faults)
+    static char* bufs[65536]; static char* ubs[RB_BIG + 1];
+    if (!bufs[cap]) bufs[cap] = (char*)malloc(cap);
+    if (!ubs[rb]) ubs[rb] = (char*)malloc(rb);
+    char* buf = bufs[cap]; memset(buf, 0xDD, cap);
+#ifndef C13_RXBUF_NONUL
+    // Request::parse_request_line (message.cpp:369) runs strlen() over the receive buffer (char* -> string_view); with a buffer
+    // that holds no NUL byte this leaves the block. That defect is reported by the separate target http_rxbuf_nonul; here the
+    // LAST byte inside the capacity is preset to NUL so that every other case can be explored (still an exact-size block).
+    if (mode == M_SERVER_REQ) buf[cap - 1] = 0;
+#endif
+    char* ub = ubs[rb];
     {
         TReq req(buf, (uint16_t)cap); TResp resp(buf, (uint16_t)cap);
         Message* m;
@@ -323,7 +348,7 @@ static void run(const std::string& wire, const Delivery& d, Mode mode, Verb clie
             if (mode == M_SERVER_REQ) { r.verb = req.verb(); auto t = req.target(); r.target.assign(t.data(), t.size()); }
             else { r.status = resp.status_code(); auto s = resp.status_message(); r.reason.assign(s.data(), s.size()); }
             snapshot_headers(m->headers, r.hdrs);
-            if (exp_hdrs) check_lookups(m->headers, *exp_hdrs, r);
+            if (plan) check_lookups(m->headers, *plan, r);
             size_t reads = 0;
             while (true) {
                 memset(ub, 0xEE, rb);
@@ -344,7 +369,6 @@ static void run(const std::string& wire, const Delivery& d, Mode mode, Verb clie
         }
     }
     r.overrun = ms.overrun; r.calls = ms.calls;
-    free(ub); free(buf);
 }
 
 static bool is_subsequence(const std::string& a, const std::string& of) {
@@ -427,7 +451,7 @@ static const char* mode_name(const Msg& m) { return m.req ? "server-request" : (
 
 static void exec_valid(seqx::Ctx& c, const Msg& m, const Delivery& d, size_t rb, unsigned cap, bool tolerant, uint64_t layer) {
     Result r;
-    run(m.wire, d, m.req ? M_SERVER_REQ : M_CLIENT_RESP, m.fr.kind == F_HEAD ? Verb::HEAD : Verb::GET, cap, rb, m.payload.size() + 8, &m.hdrs, r);
+    run(m.wire, d, m.req ? M_SERVER_REQ : M_CLIENT_RESP, m.fr.kind == F_HEAD ? Verb::HEAD : Verb::GET, cap, rb, m.payload.size() + 8, &m.plan, r);
     uint64_t out;
     if (tolerant && r.rh < 0 && !r.overrun) out = 20;     // small buffer: "no buffer" is an accepted answer
     else out = check_valid(c, m, r, rb);
